@@ -134,6 +134,18 @@ class FakeUsbRadio:
         self.log = []
         self._resp = None
         self._ctx = self
+        self._n = 0
+
+    def _status(self, acked):
+        """Status byte of the dongle: bit 0 ack received, bit 1 power detector, bits 4..7 number of retries (the
+        firmware reports the retries it made: a lost packet carries the configured ARC there, not zero)."""
+        self._n += 1
+        k = (self._n * 2654435761) >> 7
+        retries = (self.arc if (self.arc is not None and not acked) else (k % 4)) & 0x0F
+        if k % 5 == 0:
+            retries = 0
+        powerdet = 1 if k % 3 == 0 else 0
+        return (1 if acked else 0) | (powerdet << 1) | (retries << 4)
 
     # pyusb surface
     def dispose(self, dev):
@@ -166,15 +178,15 @@ class FakeUsbRadio:
         key = (self.channel, self.datarate, self.address)
         peer = self.peers.get(key)
         if peer is None or out == 'up':
-            self._resp = bytes([0x00])
+            self._resp = bytes([self._status(False)])
             self.log.append((key, frame, 'no-peer' if peer is None else out, None))
             return len(frame)
         ack = peer.on_frame(frame)
         if out == 'ack':
-            self._resp = bytes([0x00])
+            self._resp = bytes([self._status(False)])
             self.log.append((key, frame, out, None))
         else:
-            self._resp = bytes([0x01]) + bytes(ack)
+            self._resp = bytes([self._status(True)]) + bytes(ack)
             self.log.append((key, frame, out, bytes(ack)))
         return len(frame)
 
